@@ -357,3 +357,5 @@ case("C12", "return-counts-inverted", "VIOLATION", [(FI, "\tif return_counts == 
 case("C12", "tensor-offsets-short", "VIOLATION", [(FI, "X_lengths = numpy.arange(X.shape[0]+1) * X.shape[-1]", "X_lengths = numpy.arange(X.shape[0]) * X.shape[-1]")], "LOOPS")
 case("C14", "offsets-scan-short", "VIOLATION", [(TT, "\t\tfor k in range(nt+nq-1):\n\t\t\tscore = t_sums[k]", "\t\tfor k in range(nt+nq-2):\n\t\t\tscore = t_sums[k]")], "LOOPS")
 case("C14", "histogram-skips-target-column", "VIOLATION", [(TT, "\t\tk = nq - i - 1\n\t\tfor j in range(Y.shape[-1]):", "\t\tk = nq - i - 1\n\t\tfor j in range(Y.shape[-1] - 1):")], "LOOPS")
+case("C06", "pairs-loop-short", "VIOLATION", [(D, "for i in trange(n, disable=not verbose):", "for i in trange(n - 1, disable=not verbose):")], "PAIRS")
+case("C05", "C05-raw-flag-inverted", "VIOLATION", [(D, "\t\t\t\tif raw_outputs == False:\n\t\t\t\t\tmultipliers = hypothetical_attributions", "\t\t\t\tif raw_outputs != False:\n\t\t\t\t\tmultipliers = hypothetical_attributions")], "PROCESS")
